@@ -51,6 +51,17 @@ func (f *Ash) Call(s *slip.Scope, args slip.List, depth int) (result slip.Object
 		slip.TypePanic(s, depth, "shift", args[1], "fixnum")
 	}
 	sh := int(shift)
+	if exptMaxBits < sh {
+		// Only zero stays representable when shifted that far.
+		switch ti := args[0].(type) {
+		case slip.Fixnum:
+			if ti != 0 {
+				slip.ArithmeticPanic(s, depth, f, args, "the result of shifting %s left by %d bits is too large to represent", ti, sh)
+			}
+		case *slip.Bignum:
+			slip.ArithmeticPanic(s, depth, f, args, "the result of shifting %s left by %d bits is too large to represent", ti, sh)
+		}
+	}
 	switch ti := args[0].(type) {
 	case slip.Fixnum:
 		result = shiftInteger(big.NewInt(int64(ti)), sh)
